@@ -628,8 +628,15 @@ func c12RealOBN(prog []byte, limit uint) (string, string) {
 
 // ---------- generation ----------
 
+// c12LimitValues: the limit VALUE as a boundary dimension (every limit knob is a uint; the HTTP
+// payload-limit header is parsed as int64): around the frame prefix, 16/32/63/64-bit edges.
+var c12LimitValues = []uint{0, 1, 3, 4, 5, 1 << 15, 1 << 16, 1<<31 - 1, 1 << 31, 1<<31 + 1, 1<<32 - 1, 1 << 32, 1 << 40,
+	1<<63 - 1, 1 << 63, 1<<63 + 1, 1<<64 - 1}
+
 func c12GenLimit(r *Rng, framed int) uint {
-	switch r.Intn(12) {
+	switch r.Intn(13) {
+	case 12:
+		return c12LimitValues[r.Intn(len(c12LimitValues))]
 	case 0:
 		return 0
 	case 1:
@@ -781,6 +788,7 @@ func c12Bucket(n int) string {
 
 func runC12(r *Rng, n int) {
 	c12KnownWitness()
+	c12KnownLimitWitness()
 	c12HelperCheck()
 	for i := 0; i < n; i++ {
 		switch {
@@ -815,6 +823,8 @@ func runC12(r *Rng, n int) {
 				c12SendCase(r, i)
 			case k < 42:
 				c12SeqCase(r, i, []string{"http-t", "http-c"})
+			case k < 54:
+				c12HdrCase(r, i)
 			default:
 				c12CallCase(r, i)
 			}
@@ -829,6 +839,10 @@ func c12LimitClass(limit uint, framed int) string {
 		return "0(unbounded)"
 	case limit < 4:
 		return "1..3"
+	case limit > 1<<63-1:
+		return ">MaxInt64"
+	case limit >= 1<<31:
+		return "2^31..MaxInt64"
 	case int(limit) < framed-8:
 		return "far-below"
 	case int(limit) < framed:
@@ -904,7 +918,7 @@ func c12ProtoCase(r *Rng, i int) {
 }
 
 func c12ParseLimit(s string) uint {
-	v, _ := strconv.ParseUint(s, 10, 32)
+	v, _ := strconv.ParseUint(s, 10, 64)
 	return uint(v)
 }
 
